@@ -36,6 +36,7 @@ def jobs(tier):
     add("BSS", "B", filt="from")  # the from-date can cut into a partly sold lot: labels keep counting hidden fractions
     add("BSBS", "B", method="lifo")  # a lot whose fractions are not adjacent rows
     add("BS", "B", filt="from-to", years=(2020, 2021))
+    add("BS", "B", filt="from-to", off="shared")  # one symbolic UTC offset: windows and years are those of the local date
     add("BS", "B", country="generic")
     add("BS", "B", country="es")
     add("BBS", "B", schedule={"2020": "fifo", "2021": "hifo"}, years=(2020, 2021))
@@ -55,7 +56,7 @@ def jobs(tier):
 
 
 def describe(spec):
-    return "B1=%s B2=%s %s filter=%s %s %s" % (spec["c1"], spec["c2"], ",".join("%s:%s" % kv for kv in sorted(spec["schedule"].items())), spec["filter"], spec["country"], "-".join(map(str, spec["years"]))) + (" uid=" + spec["uid"] if spec.get("uid") else "")
+    return "B1=%s B2=%s %s filter=%s %s %s" % (spec["c1"], spec["c2"], ",".join("%s:%s" % kv for kv in sorted(spec["schedule"].items())), spec["filter"], spec["country"], "-".join(map(str, spec["years"]))) + (" uid=" + spec["uid"] if spec.get("uid") else "") + (" offset=shared" if spec.get("off") else "")
 
 
 def weight(spec):
@@ -66,7 +67,7 @@ def bounds(tier):
     return {
         "assets": "2 (B1: %s transactions, B2: 1-2), identical sheet row numbers in both assets" % ("2-3" if tier == "quick" else "2-4"),
         "filters": "none / symbolic to_date / symbolic from_date / both, anywhere from 2019-12-30 to 2022-01-01",
-        "instants": "microseconds inside the window years, ties allowed, UTC",
+        "instants": "microseconds inside the window years, ties allowed, UTC (one job: a symbolic UTC offset shared by all timestamps)",
         "amounts": "k*1e-11 in [1e-11, 1e9]",
         "prices": "k*1e-4 in [1e-4, 1e6]",
         "templates": "us (en) plus generic, es" + (", jp, ie" if tier == "thorough" else ""),
@@ -124,8 +125,9 @@ def run(S, spec):
             s["uid"] = "order-77"
     for i, s in enumerate(s2):
         s["row"] = 10 + i  # same sheet rows as asset B1
-    h1 = Hist(S, s1, years, prefix="x")
-    h2 = Hist(S, s2, years, prefix="y")
+    off = S.int("off", -720, 840) if spec.get("off") else None
+    h1 = Hist(S, s1, years, prefix="x", shared_off=off, shared_sym=off is not None)
+    h2 = Hist(S, s2, years, prefix="y", shared_off=off, shared_sym=off is not None)
     lo = date(years[0], 1, 1).toordinal() - 2
     hi = date(years[-1], 12, 31).toordinal() + 1
     from_date = to_date = None
